@@ -1,7 +1,8 @@
 (* C17 property theorems: statements only, each closed by [exact]. *)
 From Coq Require Import Permutation.
 From Boltons Require Import Lib.Prelude Model.C17_Model Spec.C17_Spec Check.C17_Check
-  Proofs.C17_Dict Proofs.C17_OTO Proofs.C17_M2M Proofs.C17_FD Proofs.C17_RefineOTO.
+  Proofs.C17_Dict Proofs.C17_OTO Proofs.C17_M2M Proofs.C17_FD Proofs.C17_RefineOTO
+  Proofs.C17_RefineM2M Proofs.C17_RefineFD.
 
 (* OneToOne: after ANY history of instance creation (pairs, .unique, copies),
    []=, del, pop, popitem, clear, setdefault, update, |=, update-from-instance,
@@ -54,6 +55,21 @@ Theorem C17_m2m_transposed : forall hops m, In m (m2m_run hops) ->
 Proof. exact m2m_transposed_after_any_history. Qed.
 Print Assumptions C17_m2m_transposed.
 
+(* Refinement for ManyToMany: the model's canonical views after every step
+   satisfy exactly the Spec predicate [holds] evaluates: transposed pairs, no
+   empty entries, the reference effect of add/remove/[]=/del/replace/update on
+   the relation, KeyError cases, reads, ManyToMany(other)/update(other) = union,
+   all other instances untouched. *)
+Theorem C17_m2m_refines : forall hops, m_no_bad_index (m2m_trace [] hops) ->
+  c17_verdict (CM2m (m2m_trace [] hops)) = (true, true, false).
+Proof. exact m2m_model_refines_spec. Qed.
+Print Assumptions C17_m2m_refines.
+
+Example C17_m2m_refines_inhabited :
+  m_no_bad_index (m2m_trace [] [MNew [(0,1);(0,2);(3,1)]; MOp 0 true (MReplace 1 2); MNewFrom 0 true;
+                                MOp 0 false (MDelitem 3); MUpdFrom 1 true 0 false; MOp 1 false (MRemove 9 9)]).
+Proof. repeat constructor; simpl; discriminate. Qed.
+
 Example C17_m2m_inhabited :
   exists m, In m (m2m_run [MNew [(0,1);(0,2);(3,1)]; MOp 0 true (MReplace 1 2); MNewFrom 0 true;
                            MOp 0 false (MDelitem 3); MUpdFrom 1 true 0 false]) /\ length (m_inv m) = 2.
@@ -94,6 +110,20 @@ Theorem C17_dict_eq_order_free : forall a b : dict,
   NoDup (map fst a) -> Permutation a b -> dict_eqb_unordered a b = true.
 Proof. exact dict_eqb_perm. Qed.
 Print Assumptions C17_dict_eq_order_free.
+
+(* Refinement for FrozenDict: for every construction, history (taking the hash at
+   least once) and twin, the model's observations satisfy exactly the Spec
+   predicate [holds] evaluates: every mutator raises TypeError, items never
+   change, hash outcomes (value / FrozenHashError) are repeated consistently,
+   updated() = dict.update on a copy with the right equality flag, copy/pickle
+   equal, twin == iff same items, equal twins hash alike. *)
+Theorem C17_frozen_refines : forall ih kvs ops kvs2 ihs,
+  (forall p, ih_lookup ihs p = ih p) -> In FHash ops ->
+  c17_verdict (CFd kvs ihs (fd_trace ih (mkFD (dict_of kvs) HUnset) ops) kvs2 (dict_of kvs2)
+                   (dict_eqb_unordered (dict_of kvs) (dict_of kvs2))
+                   (snd (fd_hash ih (mkFD (dict_of kvs2) HUnset)))) = (true, true, false).
+Proof. exact fd_model_refines_spec. Qed.
+Print Assumptions C17_frozen_refines.
 
 Example C17_frozen_inhabited :
   let ih := fun p : kv => Z.of_nat (fst p * 7 + snd p) in
